@@ -36,7 +36,7 @@ def gen_cases(rng, tier):
   n = {'quick': 400, 'thorough': 12000, 'search': 150}[tier]
   out = []
   for i in range(n):
-    L = lg.gen_leaf(rng, cls=CLASSES[i % len(CLASSES)])
+    L = lg.gen_leaf(rng, cls=CLASSES[i % len(CLASSES)], variant=i // len(CLASSES))
     if L['cls'] == 'ADevice':
       L['ucons'] = []
     s = lg.gen_flow(rng, L, kind=lg.pick(rng, ['interior', 'interior', 'mixed']))
